@@ -190,11 +190,11 @@ Variable D : decoders.
 Lemma RP_negotiate_hold_time h w : RP w -> RP (negotiate_hold_time h w).
 Proof.
   intros H. unfold negotiate_hold_time. cbv zeta.
-  apply (RP_frame (if negb (w_hold (set_w_hold (N.min (w_hold w) h) w) =? 0) && (w_hold (set_w_hold (N.min (w_hold w) h) w) <? 3)
+  apply (RP_frame (if hold_refused h (w_hold (set_w_hold (N.min (w_hold w) h) w))
                    then F_open_message_error c_ERR_MSG_OPEN_UNACCPT_HOLD_TIME [] (set_w_hold (N.min (w_hold w) h) w)
                    else set_w_hold (N.min (w_hold w) h) w)); try reflexivity.
   assert (H0 : RP (set_w_hold (N.min (w_hold w) h) w)) by (revert H; apply RP_frame; reflexivity).
-  destruct (_ && _); auto using RP_open_message_error.
+  destruct (hold_refused _ _); auto using RP_open_message_error.
 Qed.
 
 Lemma RP_dispatch c ty msg w : RP w -> RP (snd (dispatch D c ty msg w)).
